@@ -22,7 +22,7 @@ RULE = ('random Element (proportion 1 or >1), Substance (random formula tree ren
         'density kind+value, volume, unit choice)')
 SHARDS = {'quick': 16, 'thorough': 16}
 MIN_NONTRIVIAL = {'quick': 200, 'thorough': 6000}
-TIME_CAP = {'quick': 45, 'thorough': 780}
+TIME_CAP = {'quick': 300, 'thorough': 3600}
 REQUIRED_CLASSES = ['element', 'element-proportion>1', 'substance', 'material-number-fraction', 'material-mass-fraction',
                     'mass-density-given', 'number-density-given', 'with-volume', 'without-volume', 'natural', 'most-abundant',
                     'unit:kg/m3', 'unit:kg/l', 'unit:m-3', 'unit:1/l', 'unit:l', 'unit:m3', 'dict-form', 'string-form']
